@@ -67,3 +67,14 @@ VARIANTS = [
            [(UT, "            non_none = list(filter(lambda x: x is not None, ch))\n            chunk = []\n            for stmt in non_none:\n",
              "            chunk = []\n            for stmt in ch:\n                if stmt is None:\n                    continue\n")], ("C19",)),
 ]
+
+UT19 = "src/jaqalpaq/core/algorithm/unit_timing.py"
+VARIANTS += [
+    # reverting fix 051a4fe
+    fire("c19-normalizer-skips-loops",
+         [(UT19, "    def visit_LoopStatement(self, obj):\n        \"\"\"A loop keeps its count; its body is normalized like any block.\"\"\"\n        return LoopStatement(obj.iterations, self.visit(obj.statements))\n\n", "")],
+         ("C19.6", "LoopStatement.statements:visited"), ("C19",)),
+    fire("c19-normalizer-loop-count-constant",
+         [(UT19, "        return LoopStatement(obj.iterations, self.visit(obj.statements))", "        return LoopStatement(1, self.visit(obj.statements))")],
+         ("*", "LoopStatement"), ("C19",)),
+]
